@@ -1024,6 +1024,15 @@ def request_handler(ctx, mps, variant):
     same = cls == want_cls and (variant == 'mux' or sub[0].obj.kwargs.get('max_packet_length') == mps)
     ctx.ob('C09.handler-config', C + '.get_descriptor' + tag, same, sub[0].loc,
            'the handler is a %s built with max_packet_length = max_packet_size (%d): %s %s' % (want_cls, mps, cls, {k: v for k, v in sub[0].obj.kwargs.items() if isinstance(v, int)}))
+    if variant == 'mux':
+        # the multiplexer only merges: every handler it was given must itself cut the data stage into max_packet_size packets
+        kids = sub[0].obj.attrs.get('_handlers') if hasattr(sub[0].obj, 'attrs') else None
+        ctx.need(isinstance(kids, list) and len(kids) >= 2 and all(hasattr(k, 'kwargs') for k in kids),
+                 C + ': the handlers registered with the descriptor multiplexer')
+        for k in kids:
+            ctx.ob('C09.handler-config', '%s.get_descriptor.%s%s' % (C, k.clsname, tag), k.kwargs.get('max_packet_length') == mps, k.loc or sub[0].loc,
+                   'the %s behind the multiplexer must be built with max_packet_length = max_packet_size (%d), otherwise its packets exceed '
+                   'the endpoint size while start_position advances by %d: got %s' % (k.clsname, mps, mps, {a: b for a, b in k.kwargs.items() if isinstance(b, int)} or 'the default'))
     for port, src in (('value', 'setup.value'), ('length', 'setup.length')):
         d = ir.drivers(P + port, exact=True)
         ctx.ob('C09.request-wiring', '%s.handler.%s%s' % (C, port, tag), len(d) == 1 and not d[0].guard and d[0].rhs.canon() == I + src and d[0].state is None,
